@@ -279,8 +279,18 @@ def rule_d(ctx):
                 ctx.ob(R, f.qname, "tensor cell quantity: orientation o reads the diagonal entry (o, o)", sub == "...ii->...i",
                        f"np.einsum('{sub}', ...) does not extract the diagonal ('...ii->...i' would): off-diagonal entries enter the face average", es[0], evidence=True)
                 continue
+        rowcol = []
+        if not ok and body is not None and kind == "tensor":
+            # named contradiction: the per-orientation value is built from a whole row / column of the tensor (a slice `:` in one of the two
+            # trailing positions), not from the entry (o, o)
+            for s_ in body:
+                for x in ast.walk(s_):
+                    if isinstance(x, ast.Subscript) and norm(x.value) == cq and isinstance(x.slice, ast.Tuple) and len(x.slice.elts) == 3 and isinstance(x.slice.elts[0], ast.Constant) \
+                            and x.slice.elts[0].value is Ellipsis and sum(isinstance(e_, ast.Slice) and e_.lower is None and e_.upper is None for e_ in x.slice.elts[1:]) == 1:
+                        rowcol.append(norm(x))
         ctx.ob(R, f.qname, f"{kind} cell quantity: orientation o reads {'the scalar' if kind == 'scalar' else ('component o' if kind == 'vector' else 'the diagonal entry (o, o)')}", ok,
-               str([norm(x)[:90] for x in (body or [])]), f.node)
+               (f"`{rowcol[0]}` takes a whole row / column of the tensor: off-diagonal entries enter the value averaged onto the faces of orientation o; " if rowcol else "") + str([norm(x)[:90] for x in (body or [])]), f.node,
+               evidence=bool(rowcol))
     ctx.floor(R, 1)
 
 
